@@ -289,9 +289,7 @@ func (fr *Frame) contractCall(st *State, key string, spec *FuncSpec, fn *ssa.Fun
 	if all {
 		comps = fc.sortedComps()
 	}
-	for _, cpt := range comps {
-		fr.havocComp(st, cpt)
-	}
+	fr.havocComps(st, comps, pre)
 	// results
 	rn := resultNames(spec, sig)
 	var res []Term
@@ -338,14 +336,13 @@ func (fr *Frame) unknownCall(st *State, key string, sig *types.Signature, fn *ss
 		fc.w.assumed["unknown callee, all heap components havocked: "+key] = true
 	}
 	oldNext := st.nextID
+	preCall := st.clone()
 	st.nextID = fc.fresh("nid", SInt, nil)
 	fc.assume(st, mk(fmt.Sprintf("(>= %s %s)", st.nextID.S, oldNext.S), SBool, nil))
 	if all {
 		comps = fc.sortedComps()
 	}
-	for _, c := range comps {
-		fr.havocComp(st, c)
-	}
+	fr.havocComps(st, comps, preCall)
 	var res []Term
 	for i := 0; i < sig.Results().Len(); i++ {
 		rt := sig.Results().At(i).Type()
@@ -647,6 +644,14 @@ func (fc *FnCtx) instrWrites(in ssa.Instruction, promoted map[*ssa.Alloc]bool, o
 		if fc.frameMode && stackRooted(x.Addr) {
 			return false // writes to non-escaping locals are invisible to callers
 		}
+		if freshRooted(x.Addr, promoted, 0) {
+			tmp := map[string]bool{}
+			fc.storeTargets(x.Addr, promoted, tmp)
+			for k := range tmp {
+				out["~"+k] = true
+			}
+			return false
+		}
 		fc.storeTargets(x.Addr, promoted, out)
 	case *ssa.Alloc:
 		if promoted[x] {
@@ -656,20 +661,28 @@ func (fc *FnCtx) instrWrites(in ssa.Instruction, promoted map[*ssa.Alloc]bool, o
 			return false
 		}
 		et := elemTypeOfPtr(x.Type())
+		tmp := map[string]bool{}
 		if isAggregate(et) {
-			fc.leafCompsOfType(et, out)
+			fc.leafCompsOfType(et, tmp)
 		} else {
 			name, _ := fc.compBox(et)
-			out[name] = true
+			tmp[name] = true
+		}
+		for k := range tmp {
+			out["~"+k] = true
 		}
 	case *ssa.MakeSlice:
-		fc.elemComps(x.Type().Underlying().(*types.Slice).Elem(), out)
+		tmp := map[string]bool{}
+		fc.elemComps(x.Type().Underlying().(*types.Slice).Elem(), tmp)
+		for k := range tmp {
+			out["~"+k] = true
+		}
 	case *ssa.MakeMap:
 		mt := x.Type().Underlying().(*types.Map)
 		d, v, _, _ := fc.compMap(mt)
-		out[d], out[v], out["MN_"+mapID(mt)] = true, true, true
+		out["~"+d], out["~"+v], out["~MN_"+mapID(mt)] = true, true, true
 	case *ssa.MakeChan:
-		out[fc.compChanClosed()] = true
+		out["~"+fc.compChanClosed()] = true
 	case *ssa.MapUpdate:
 		mt := x.Map.Type().Underlying().(*types.Map)
 		d, v, _, _ := fc.compMap(mt)
@@ -827,6 +840,9 @@ func (fc *FnCtx) modset(fn *ssa.Function, visiting map[*ssa.Function]bool) ([]st
 	}
 	var cs []string
 	for c := range out {
+		if strings.HasPrefix(c, "~") && out[c[1:]] {
+			continue // also written at pre-existing locations
+		}
 		cs = append(cs, c)
 	}
 	sort.Strings(cs)
@@ -834,6 +850,47 @@ func (fc *FnCtx) modset(fn *ssa.Function, visiting map[*ssa.Function]bool) ([]st
 		fc.modCache[fn] = modResult{cs, all}
 	}
 	return cs, all
+}
+
+// freshRooted reports whether an address certainly lies in memory allocated by the current
+// activation (so that, for the caller, only fresh memory is written through it).
+func freshRooted(v ssa.Value, promoted map[*ssa.Alloc]bool, depth int) bool {
+	if depth > 12 {
+		return false
+	}
+	switch x := v.(type) {
+	case *ssa.Alloc:
+		return !promoted[x]
+	case *ssa.MakeSlice:
+		return true
+	case *ssa.FieldAddr:
+		return freshRooted(x.X, promoted, depth+1)
+	case *ssa.IndexAddr:
+		return freshRooted(x.X, promoted, depth+1)
+	case *ssa.Slice:
+		return freshRooted(x.X, promoted, depth+1)
+	case *ssa.ChangeType:
+		return freshRooted(x.X, promoted, depth+1)
+	case *ssa.UnOp:
+		if x.Op != token.MUL {
+			return false
+		}
+		a, ok := x.X.(*ssa.Alloc)
+		if !ok || !promoted[a] || a.Referrers() == nil {
+			return false
+		}
+		n := 0
+		for _, r := range *a.Referrers() {
+			if st, ok := r.(*ssa.Store); ok && st.Addr == a {
+				n++
+				if !freshRooted(st.Val, promoted, depth+1) {
+					return false
+				}
+			}
+		}
+		return n > 0
+	}
+	return false
 }
 
 type modResult struct {
@@ -892,6 +949,9 @@ func (fr *Frame) loopWrites(li *loopInfo) (locals []*ssa.Alloc, comps []string, 
 		}
 	}
 	for c := range out {
+		if strings.HasPrefix(c, "~") && out[c[1:]] {
+			continue
+		}
 		comps = append(comps, c)
 	}
 	sort.Strings(comps)
